@@ -330,7 +330,8 @@ func (self *RemoteJobManager) sendJob(shellCmd string, argv []string, envs map[s
 	ctx context.Context) {
 	jobscript := self.jobScript(shellCmd, argv, envs, metadata,
 		resRequest, fqname, shellName)
-	verifEvent("SendJob", "md", metadata.path, "fq", fqname, "kind", shellName)
+	verifEvent("SendJob", "md", metadata.path, "fq", fqname, "kind", shellName,
+		"journal", metadata.journalFile(), "files", metadata.curFilesPath)
 	if err := metadata.WriteRaw("jobscript", jobscript); err != nil {
 		util.LogError(err, "jobmngr", "Could not write job script.")
 	}
